@@ -538,6 +538,41 @@ func runC20(c *Ctx) {
 			}
 		})
 		R.Ob(g+"/closes the listeners", c.P.Pos(f.Pos()), nL == 1, fmt.Sprintf("%d listener close sites", nL))
+		// the closing loops run to completion: no exit from a loop body other than the back edge, and every
+		// return that is not the already-closed refusal has passed the loop
+		for _, li := range findLoops(f) {
+			what := ""
+			for b := range li.blocks {
+				for _, in := range b.Instrs {
+					if labelHas(c.stdLabels(in), "icall:iface:(net.Listener).Close") {
+						what = "listener"
+					} else if isStaticCall(in, "(*Conn).Close") {
+						what = "connection"
+					}
+				}
+			}
+			if what == "" || li.body == nil {
+				continue
+			}
+			region := reachableFrom(li.body, func(from, to *ssa.BasicBlock) bool { return to == li.header })
+			esc := ""
+			for b := range region {
+				if !li.blocks[b] {
+					esc = c.P.Pos(firstPos(b))
+				}
+			}
+			R.Ob(g+"/"+what+" loop has no early exit", c.P.Pos(firstPos(li.header)), esc == "", "the loop that closes every "+what+" can be left from inside its body (towards "+esc+"): one failing element leaves the remaining ones open")
+			allInstrs(f, func(in ssa.Instruction) {
+				r, ok := in.(*ssa.Return)
+				if !ok || in.Block() == f.Recover {
+					return
+				}
+				if rv := returnedValues(r); len(rv) > 0 && describe(rv[0]) == "ErrServerClosed" {
+					return
+				}
+				R.Ob(c.siteKey(in, "return passes the "+what+" loop"), c.P.InstrPos(in), li.header.Dominates(in.Block()), "return is reachable without running the loop that closes every "+what)
+			})
+		}
 	}
 	if f := c.A.Func("(*Server).Close"); f != nil {
 		R.Ob("(*Server).Close/closes every connection", c.P.Pos(f.Pos()), len(s.Find(f, lClose)) == 1, "Close does not close the registered connections")
